@@ -594,7 +594,7 @@ func (r *R) Gen(ctx sdk.Context, g *hx.Rng) string {
 		}
 		denom := "stake"
 		if g.Chance(1, 4) {
-			denom = pickStr(g, append(symPool[:4], muPool[:3]...))
+			denom = pickStr(g, append(append([]string{}, symPool[:4]...), muPool[:3]...)) // fresh slice: never alias symPool
 		}
 		if g.Chance(1, 8) { // malformed fee denoms (Params.Validate checks sdk.ValidateDenom)
 			denom = []string{"-", "ab", "1ab", "a b"[:1], "Stake", "st/ake", "st!ake"}[g.Intn(7)]
